@@ -129,8 +129,8 @@ func runC16(c *Ctx) {
 			return strings.HasSuffix(id, "afero.Fs.OpenFile") || strings.HasSuffix(id, "afero.File.Close") || id == "io.WriterTo.WriteTo" || id == "pkg/storage.PipeIO" || strings.HasSuffix(id, "afero.Fs.MkdirAll") || strings.HasSuffix(id, "backoff/v4.Retry")
 		}
 		n := checkErrDiscipline(c, "put.errors", f, io, nil)
-		if n < 7 {
-			c.fail("put.errors", "instances", "-", "expected at least 7 error sites in Put, found "+itoa(n))
+		if n < 3 {
+			c.fail("put.errors", "instances", "-", "expected at least 3 error sites in Put, found "+itoa(n))
 		}
 		checkNoSwallow(c, "put.errors", f, io, nil)
 		checkRetryOperands(c, "put.errors.retry-operand", f)
